@@ -655,6 +655,292 @@ GROUPS.append(("FnsWriter.lean", ["Sds.Model.WriterGlue", "Sds.Generated.FnsVec"
 
 
 
+# ---- sparse_vector.rs: the iterator over set bits and the constructors of it
+SPI_SELF = dict(lean="SpOneIter", var="it", rust="OneIter", mut=True, order=["next", "limit"],
+                fields={"next": ("next", ("N", "Pos")), "limit": ("limit", ("N", "Pos"))})
+SPI_CALLS = {"self.parent.high.get": dict(lean="BitVector.get s.high {0}", ret=B),
+             "self.parent.combine": dict(lean="gen_SparseVector_combine m s {0}", ret=("T", [U, U]))}
+
+
+def spi(fn, impl, mut=True):
+    return dict(file="sparse_vector.rs", impl=impl, fn=fn, name="gen_SparseOneIter_" + fn, self=dict(SPI_SELF, mut=mut), calls=SPI_CALLS,
+                binders=["(s : Sparse)"], fuel=["s.high.len + 1"], tyalias={"Self::Item": ("T", [U, U])})
+
+
+SP_ITER_CALLS = dict(SP_LOOP_CALLS, **{"self.pos": dict(lean="gen_SparseVector_pos m s {0}", ret=("N", "Pos")),
+                                       "<IntVector>.len": dict(lean="{0}.len", ret=U, monadic=False)})
+GROUPS.append(("FnsSpIter.lean", ["Sds.Model.Sparse", "Sds.Generated.FnsIdx"], [
+    spi("next", r"impl<'a> Iterator for OneIter<'a>"), spi("size_hint", r"impl<'a> Iterator for OneIter<'a>", mut=False),
+    spi("next_back", r"impl<'a> DoubleEndedIterator for OneIter<'a>"),
+    dict(file="sparse_vector.rs", impl=r"impl<'a> Select<'a> for SparseVector\b", fn="one_iter", name="gen_SparseVector_one_iter",
+         self=dict(SPARSE_SELF, rust="SparseVector"), calls=SP_ITER_CALLS, tyalias={"Self::OneIter": ("N", "SpOneIter")},
+         structs_over={"OneIter": SP_ITER_STRUCT}),
+    dict(file="sparse_vector.rs", impl=r"impl<'a> Select<'a> for SparseVector\b", fn="select_iter", name="gen_SparseVector_select_iter",
+         self=dict(SPARSE_SELF, rust="SparseVector"), calls=SP_ITER_CALLS, tyalias={"Self::OneIter": ("N", "SpOneIter")},
+         structs_over={"OneIter": SP_ITER_STRUCT}),
+]))
+
+
+# ---- sparse_vector.rs: find_zero_run (binary search + `while let` scan), select_zero, the iterator over unset bits
+SPO = ("N", "SpOneIter")
+CALLS["<SpOneIter>.next"] = dict(lean="gen_SparseOneIter_next m s {0}", ret=("O", ("T", [U, U])), mutrecv=True, monadic=True)
+SP_Z_CALLS = dict(SP_ITER_CALLS, **{
+    "self.one_iter": dict(lean="gen_SparseVector_one_iter m s", ret=SPO),
+    "self.select_iter": dict(lean="gen_SparseVector_select_iter m s {0}", ret=SPO),
+    "self.count_zeros": dict(lean="gen_SparseVector_count_zeros m s", ret=U),
+    "self.find_zero_run": dict(lean="gen_SparseVector_find_zero_run m s {0}", ret=("T", [U, SPO])),
+    "Self::ZeroIter::empty_iter": dict(lean="SpZeroIter.emptyIter {0}", ret=("N", "SpZeroIter"), monadic=False),
+})
+STRUCTS["SpZeroIter"] = dict(lean="SpZeroIter", ctor=None, fields={}, fieldmap={})
+SPZ_STRUCT = dict(lean="SpZeroIter", ctor=lambda v: "(⟨%s, %s, %s, %s⟩ : SpZeroIter)" % (v["iter"], v["one_pos"], v["next"], v["limit"]),
+                  fields={"iter": SPO, "one_pos": U, "next": ("T", [U, U]), "limit": ("T", [U, U])}, fieldmap={})
+
+
+def spz(fn, impl, fuel=(), ret=None):
+    d = dict(file="sparse_vector.rs", impl=impl, fn=fn, name="gen_SparseVector_" + fn, self=dict(SPARSE_SELF, rust="SparseVector"),
+             calls=SP_Z_CALLS, fuel=list(fuel), tyalias={"Self::ZeroIter": ("N", "SpZeroIter"), "OneIter": SPO},
+             structs_over={"ZeroIter": SPZ_STRUCT, "OneIter": SP_ITER_STRUCT})
+    if ret is not None:
+        d["ret"] = ret
+    return d
+
+
+SPZI_SELF = dict(lean="SpZeroIter", var="z", rust="ZeroIter", mut=True, order=["iter", "one_pos", "next", "limit"],
+                 fields={"iter": ("iter", SPO), "one_pos": ("onePos", U), "next": ("next", ("T", [U, U])), "limit": ("limit", ("T", [U, U]))})
+SPZI_CALLS = {"self.iter.next": dict(lean="gen_SparseOneIter_next m s self_iter", ret=("O", ("T", [U, U])), setvar="self_iter"),
+              "self.next_run": dict(lean="gen_SparseZeroIter_next_run m s {self}", ret=UNIT, mutself=True)}
+
+
+def spzi(fn, impl, fuel=(), mut=True):
+    return dict(file="sparse_vector.rs", impl=impl, fn=fn, name="gen_SparseZeroIter_" + fn, self=dict(SPZI_SELF, mut=mut), calls=SPZI_CALLS,
+                binders=["(s : Sparse)"], fuel=list(fuel), tyalias={"Self::Item": ("T", [U, U])})
+
+
+GROUPS.append(("FnsSpZero.lean", ["Sds.Model.Sparse", "Sds.Generated.FnsSpIter", "Sds.Generated.FnsLoop"], [
+    spz("find_zero_run", r"impl SparseVector\s", ["70", "Sparse.countOnes s + 2"], ret=("T", [U, SPO])),
+    spz("select_zero", r"impl<'a> SelectZero<'a> for SparseVector\b"),
+    spz("zero_iter", r"impl<'a> SelectZero<'a> for SparseVector\b"),
+    spz("select_zero_iter", r"impl<'a> SelectZero<'a> for SparseVector\b"),
+    spzi("next_run", r"impl<'a> ZeroIter<'a>", ["Sparse.countOnes s + 2"]),
+    spzi("next", r"impl<'a> Iterator for ZeroIter<'a>"),
+    spzi("size_hint", r"impl<'a> Iterator for ZeroIter<'a>", mut=False),
+]))
+
+
+# ---- sparse_vector.rs: the iterator over all bits (two-ended, skipping duplicates) and its constructor
+CALLS["<SpOneIter>.next_back"] = dict(lean="gen_SparseOneIter_next_back m s {0}", ret=("O", ("T", [U, U])), mutrecv=True, monadic=True)
+SPA_SELF = dict(lean="SpIter", var="it", rust="Iter", mut=True, order=["parent", "next", "next_set", "limit", "last_set"],
+                fields={"parent": ("parent", SPO), "next": ("next", U), "next_set": ("nextSet", ("O", U)), "limit": ("limit", U),
+                        "last_set": ("lastSet", ("O", U))})
+SPA_CALLS = {"self.parent.next": dict(lean="gen_SparseOneIter_next m s self_parent", ret=("O", ("T", [U, U])), setvar="self_parent"),
+             "self.parent.next_back": dict(lean="gen_SparseOneIter_next_back m s self_parent", ret=("O", ("T", [U, U])), setvar="self_parent")}
+SPA_STRUCT = dict(lean="SpIter", ctor=lambda v: "(⟨%s, %s, %s, %s, %s⟩ : SpIter)" % (v["parent"], v["next"], v["next_set"], v["limit"], v["last_set"]),
+                  fields={"parent": SPO, "next": U, "next_set": ("O", U), "limit": U, "last_set": ("O", U)}, fieldmap={})
+STRUCTS["SpIter"] = dict(lean="SpIter", ctor=None, fields={}, fieldmap={})
+
+
+def spa(fn, impl, fuel=(), mut=True):
+    return dict(file="sparse_vector.rs", impl=impl, fn=fn, name="gen_SparseIter_" + fn, self=dict(SPA_SELF, mut=mut), calls=SPA_CALLS,
+                binders=["(s : Sparse)"], fuel=list(fuel), tyalias={"Self::Item": B})
+
+
+GROUPS.append(("FnsSpAll.lean", ["Sds.Model.Sparse", "Sds.Generated.FnsSpIter"], [
+    spa("next", r"impl<'a> Iterator for Iter<'a>", ["Sparse.countOnes s + 2"]),
+    spa("size_hint", r"impl<'a> Iterator for Iter<'a>", mut=False),
+    spa("next_back", r"impl<'a> DoubleEndedIterator for Iter<'a>", ["Sparse.countOnes s + 2"]),
+    dict(file="sparse_vector.rs", impl=r"impl<'a> BitVec<'a> for SparseVector\b", fn="iter", name="gen_SparseVector_iter",
+         self=dict(SPARSE_SELF, rust="SparseVector"), calls=SP_Z_CALLS, tyalias={"Self::Iter": ("N", "SpIter")},
+         structs_over={"Iter": SPA_STRUCT}),
+]))
+
+
+# ---- rl_vector.rs: the run iterator, the block lookups, the queries and the three derived iterators
+RUNIT = ("N", "RunIter")
+STRUCTS["RunIter"] = dict(lean="RunIter", ctor=lambda v: "(⟨%s, %s, %s⟩ : RunIter)" % (v["offset"], v["pos"], v["limit"]),
+                          fields={"parent": "SKIP", "offset": U, "pos": ("T", [U, U]), "limit": U}, fieldmap={})
+STRUCTS["RLVector"] = dict(lean="RL", ctor=None, fields={"data": IV, "samples": IV, "len": U, "ones": U}, fieldmap={})
+RLV_T = ("N", "RLVector")
+PAIR = ("T", [U, U])
+RL_TYPED = {
+    "<RunIter>.next": dict(lean="gen_RunIter_next m v {0}", ret=("O", PAIR), mutrecv=True, monadic=True),
+    "<RunIter>.rank": dict(lean="{0}.pos.1", ret=U, monadic=False),
+    "<RunIter>.offset": dict(lean="{0}.pos.2", ret=U, monadic=False),
+    "<RunIter>.rank_zero": dict(lean="gen_RunIter_rank_zero m v {0}", ret=U),
+    "<RunIter>.offset_for": dict(lean="gen_RunIter_offset_for m v {0} {1}", ret=U),
+    "<RunIter>.rank_at": dict(lean="gen_RunIter_rank_at m v {0} {1}", ret=U),
+    "<RLVector>.count_ones": dict(lean="{0}.ones", ret=U, monadic=False),
+    "<RLVector>.len": dict(lean="{0}.len", ret=U, monadic=False),
+    "<SampleIndex>.range": dict(lean="gen_SampleIndex_range m {0} {1}", ret=PAIR),
+    "RunIter::empty_iter": dict(lean="gen_RunIter_empty_iter m v {0}", ret=RUNIT),
+    "cmp::min": dict(lean="min {0} {1}", ret=U, monadic=False, args=[U, U]),
+}
+RUNIT_SELF = dict(lean="RunIter", var="it", rust="RunIter", order=["offset", "pos", "limit"],
+                  fields={"offset": ("offset", U), "pos": ("pos", PAIR), "limit": ("limit", U)})
+RUN_MUT = dict(RL_TYPED, **{
+    "self.offset": dict(lean="self_pos.2", ret=U, monadic=False), "self.rank": dict(lean="self_pos.1", ret=U, monadic=False),
+    "self.parent.data.len": dict(lean="v.data.len", ret=U, monadic=False),
+    "self.parent.blocks": dict(lean="gen_RLVector_blocks m v", ret=U),
+    "self.parent.ones_after": dict(lean="gen_RLVector_ones_after m v {0}", ret=U),
+    "self.parent.decode": dict(lean="gen_RLVector_decode m v {0}", ret=PAIR),
+    "advance": dict(lean="advance {0}", ret=B, monadic=False, args=[("O", PAIR)]),
+    "self.advance_if": dict(lean="gen_RunIter_advance_if m v {self} {0}", ret=("O", PAIR), mutself=True, args=["FP"]),
+})
+RUN_RO = dict(RL_TYPED, **{
+    "self.offset": dict(lean="it.pos.2", ret=U, monadic=False), "self.rank": dict(lean="it.pos.1", ret=U, monadic=False)})
+
+
+def runit(fn, mut, **kw):
+    return dict(dict(file="rl_vector.rs", impl=r"impl<'a> RunIter<'a>\s", fn=fn, name="gen_RunIter_" + fn, self=dict(RUNIT_SELF, mut=mut),
+                     calls=RUN_MUT if mut else RUN_RO, binders=["(v : RL)"], tyalias={"<Self as Iterator>::Item": PAIR, "<SelfasIterator>::Item": PAIR,
+                                                                                      "Self": RUNIT, "Self::Item": PAIR}), **kw)
+
+
+RLQ_CALLS = dict(RLV_CALLS, **RL_TYPED)
+RLQ_CALLS.update({
+    "self.len": dict(lean="v.len", ret=U, monadic=False), "self.is_empty": dict(lean="decide (v.len = 0)", ret=B, monadic=False),
+    "self.count_zeros": dict(lean="gen_RLVector_count_zeros m v", ret=U),
+    "self.iter_for_block": dict(lean="gen_RLVector_iter_for_block m v {0}", ret=RUNIT),
+    "self.iter_for_bit": dict(lean="gen_RLVector_iter_for_bit m v {0}", ret=RUNIT),
+    "self.iter_for_one": dict(lean="gen_RLVector_iter_for_one m v {0}", ret=RUNIT),
+    "self.iter_for_zero": dict(lean="gen_RLVector_iter_for_zero m v {0}", ret=RUNIT),
+    "self.run_iter": dict(lean="gen_RLVector_run_iter m v", ret=RUNIT),
+    "Self::block_for": dict(lean="gen_RLVector_block_for m {0} {1} {2} {3}", ret=U, args=[U, U, U, "FM"]),
+    "Self::OneIter::empty_iter": dict(lean="RLOneIter.emptyIter {0}", ret=("N", "RLOneIter"), monadic=False),
+})
+STRUCTS["RLOneIter"] = dict(lean="RLOneIter", ctor=None, fields={}, fieldmap={})
+STRUCTS["RLZeroIter"] = dict(lean="RLZeroIter", ctor=None, fields={}, fieldmap={})
+STRUCTS["RLIter"] = dict(lean="RLIter", ctor=None, fields={}, fieldmap={})
+RL_ONE_STRUCT = dict(lean="RLOneIter", ctor=lambda v: "(⟨%s, %s, %s⟩ : RLOneIter)" % (v["iter"], v["got_none"], v["rank"]),
+                     fields={"iter": RUNIT, "got_none": B, "rank": U}, fieldmap={})
+RL_ZERO_STRUCT = dict(lean="RLZeroIter", ctor=lambda v: "(⟨%s, %s, %s⟩ : RLZeroIter)" % (v["iter"], v["got_none"], v["pos"]),
+                      fields={"iter": RUNIT, "got_none": B, "pos": PAIR}, fieldmap={})
+RL_ALL_STRUCT = dict(lean="RLIter", ctor=lambda v: "(⟨%s, %s, %s⟩ : RLIter)" % (v["iter"], v["run"], v["pos"]),
+                     fields={"iter": RUNIT, "run": ("O", PAIR), "pos": U}, fieldmap={})
+RLQ_ALIAS = {"Self::OneIter": ("N", "RLOneIter"), "Self::ZeroIter": ("N", "RLZeroIter"), "Self::Iter": ("N", "RLIter")}
+RLQ_STRUCTS = {"OneIter": RL_ONE_STRUCT, "ZeroIter": RL_ZERO_STRUCT, "Iter": RL_ALL_STRUCT}
+
+
+def rlq(fn, impl, fuel=(), **kw):
+    return dict(dict(file="rl_vector.rs", impl=impl, fn=fn, name="gen_RLVector_" + fn, self=dict(RLV_SELF, rust="RLVector"), calls=RLQ_CALLS,
+                     fuel=list(fuel), tyalias=RLQ_ALIAS, structs_over=RLQ_STRUCTS), **kw)
+
+
+def rlit(prefix, self_cfg, fn, impl, extra_calls, **kw):
+    calls = dict(RL_TYPED, **extra_calls)
+    return dict(dict(file="rl_vector.rs", impl=impl, fn=fn, name="gen_%s_%s" % (prefix, fn), self=self_cfg, calls=calls, binders=["(v : RL)"],
+                     tyalias={"Self::Item": PAIR}), **kw)
+
+
+RLO_SELF = dict(lean="RLOneIter", var="it", rust="OneIter", mut=True, order=["iter", "got_none", "rank"],
+                fields={"iter": ("iter", RUNIT), "got_none": ("gotNone", B), "rank": ("rank", U)})
+RLZ_SELF = dict(lean="RLZeroIter", var="z", rust="ZeroIter", mut=True, order=["iter", "got_none", "pos"],
+                fields={"iter": ("iter", RUNIT), "got_none": ("gotNone", B), "pos": ("pos", PAIR)})
+RLA_SELF = dict(lean="RLIter", var="it", rust="Iter", mut=True, order=["iter", "run", "pos"],
+                fields={"iter": ("iter", RUNIT), "run": ("run", ("O", PAIR)), "pos": ("pos", U)})
+RLI_CALLS = {
+    "self.iter.rank": dict(lean="self_iter.pos.1", ret=U, monadic=False),
+    "self.iter.offset": dict(lean="self_iter.pos.2", ret=U, monadic=False),
+    "self.iter.rank_zero": dict(lean="gen_RunIter_rank_zero m v self_iter", ret=U),
+    "self.iter.offset_for": dict(lean="gen_RunIter_offset_for m v self_iter {0}", ret=U),
+    "self.iter.next": dict(lean="gen_RunIter_next m v self_iter", ret=("O", PAIR), setvar="self_iter"),
+    "self.iter.parent.count_ones": dict(lean="v.ones", ret=U, monadic=False),
+    "self.iter.parent.count_zeros": dict(lean="gen_RLVector_count_zeros m v", ret=U),
+    "self.iter.parent.len": dict(lean="v.len", ret=U, monadic=False),
+}
+RLI_CALLS_RO = dict(RLI_CALLS, **{"self.iter.parent.count_ones": dict(lean="v.ones", ret=U, monadic=False)})
+OPS_BV_SELF = dict(RLV_SELF, rust="RLVector")
+IMPL_RUNIT_ITER = r"impl<'a> Iterator for RunIter<'a>"
+GROUPS.append(("FnsRL.lean", ["Sds.Model.RL", "Sds.Generated.FnsLoop"], [
+    dict(file="ops.rs", impl=r"pub trait BitVec<'a>", fn="count_zeros", name="gen_RLVector_count_zeros", self=OPS_BV_SELF,
+         calls={"self.len": dict(lean="v.len", ret=U, monadic=False), "self.count_ones": dict(lean="v.ones", ret=U, monadic=False)}),
+    runit("offset", False), runit("rank", False), runit("rank_zero", False), runit("offset_for", False), runit("rank_at", False),
+    dict(file="rl_vector.rs", impl=r"impl<'a> RunIter<'a>\s", fn="empty_iter", name="gen_RunIter_empty_iter", calls=RL_TYPED, binders=["(v : RL)"],
+         params={"parent": ("(parent : RL)", RLV_T, "parent")}, tyalias={"Self": RUNIT}, ret=RUNIT),
+    runit("advance_if", True, params={"advance": ("(advance : Option (Nat × Nat) → Bool)", "FP", "advance")}, ret=("O", PAIR)),
+    dict(runit("next", True), impl=IMPL_RUNIT_ITER),
+    rlq("iter_for_bit", r"impl RLVector\s"), rlq("iter_for_one", r"impl RLVector\s"), rlq("iter_for_zero", r"impl RLVector\s"),
+    rlq("get", r"impl<'a> BitVec<'a> for RLVector\b", ["v.data.len + 2"]),
+    rlq("iter", r"impl<'a> BitVec<'a> for RLVector\b"),
+    rlq("rank", r"impl<'a> Rank<'a> for RLVector\b", ["v.data.len + 2"]),
+    rlq("one_iter", r"impl<'a> Select<'a> for RLVector\b"),
+    rlq("select", r"impl<'a> Select<'a> for RLVector\b", ["v.data.len + 2"]),
+    rlq("select_iter", r"impl<'a> Select<'a> for RLVector\b", ["v.data.len + 2"]),
+    rlq("zero_iter", r"impl<'a> SelectZero<'a> for RLVector\b"),
+    rlq("select_zero", r"impl<'a> SelectZero<'a> for RLVector\b", ["v.data.len + 2"]),
+    rlq("select_zero_iter", r"impl<'a> SelectZero<'a> for RLVector\b", ["v.data.len + 2"]),
+    rlq("successor", r"impl<'a> PredSucc<'a> for RLVector\b", ["v.data.len + 2"]),
+    rlit("RLOneIter", RLO_SELF, "next", r"impl<'a> Iterator for OneIter<'a>", RLI_CALLS),
+    rlit("RLOneIter", dict(RLO_SELF, mut=False), "size_hint", r"impl<'a> Iterator for OneIter<'a>", {"self.iter.parent.count_ones": dict(lean="v.ones", ret=U, monadic=False)}),
+    rlit("RLZeroIter", RLZ_SELF, "next", r"impl<'a> Iterator for ZeroIter<'a>", RLI_CALLS),
+    rlit("RLZeroIter", dict(RLZ_SELF, mut=False), "size_hint", r"impl<'a> Iterator for ZeroIter<'a>",
+         {"self.iter.parent.count_zeros": dict(lean="gen_RLVector_count_zeros m v", ret=U)}),
+    rlit("RLIter", RLA_SELF, "next", r"impl<'a> Iterator for Iter<'a>", RLI_CALLS, tyalias={"Self::Item": B}),
+    rlit("RLIter", dict(RLA_SELF, mut=False), "size_hint", r"impl<'a> Iterator for Iter<'a>", {"self.iter.parent.len": dict(lean="v.len", ret=U, monadic=False)},
+         tyalias={"Self::Item": B}),
+]))
+
+
+# ---- constructions: RankSupport::new (two nested `for` loops), SampleIndex::new (an iterator consumed with `next`, a `for`
+# with an inner `while`; the iterator is the list of its remaining items)
+LISTIT = ("N", "ListIter")
+STRUCTS["ListIter"] = dict(lean="(List Nat)", ctor=None, fields={}, fieldmap={})
+STRUCTS["SampleIndex"] = dict(lean="SampleIndex", ctor=lambda v: "(⟨%s, %s, %s⟩ : SampleIndex)" % (v["num_values"], v["divisor"], v["samples"]),
+                              fields={"num_values": U, "divisor": U, "samples": IV}, fieldmap={})
+CONSTR_CALLS = {
+    "parent.len": dict(lean="parent.len", ret=U, monadic=False),
+    "parent.data.word": dict(lean="RawVec.wordM parent {0}", ret=W),
+    "Vec::with_capacity": dict(lean="(#[] : Array (Word × Word))", ret=SAMPLES_T, monadic=False, args=[U]),
+    "<SamplesVec>.push": dict(lean="{0}.push {1}", ret=UNIT, mutrecv=True, args=[("T", [W, W])]),
+    "cmp::min": dict(lean="min {0} {1}", ret=U, monadic=False, args=[U, U]),
+    "<ListIter>.len": dict(lean="{0}.length", ret=U, monadic=False),
+    "<ListIter>.next": dict(lean="({0}.head?, {0}.tail)", ret=("O", U), mutrecv=True),
+    "Self::parameters": dict(lean="gen_SampleIndex_parameters m {0} {1}", ret=("T", [U, U])),
+    "IntVector::with_len": dict(lean="gen_IntVector_with_len m {0} {1} {2}", ret=IV, result=True, args=[U, U, W]),
+    "<IntVector>.set": dict(lean="gen_IntVector_set m {0} {1} {2}", ret=UNIT, mutrecv=True, monadic=True, args=[U, W]),
+}
+GROUPS.append(("FnsConstr.lean", ["Sds.Model.RL", "Sds.Model.BitVector", "Sds.Generated.FnsIdx", "Sds.Generated.FnsVec2"], [
+    dict(file="bit_vector/rank_support.rs", impl=r"impl RankSupport\b", fn="new", name="gen_RankSupport_new", calls=CONSTR_CALLS,
+         params=RANK_PARAMS, tyalias={"Vec": SAMPLES_T}, ret=("N", "RankSupport")),
+    dict(file="rl_vector/index.rs", impl=r"impl SampleIndex\b", fn="new", name="gen_SampleIndex_new", calls=CONSTR_CALLS,
+         params={"iter": ("(iter : List Nat)", LISTIT, "iter")}, ret=("N", "SampleIndex"), tyalias={"Self": ("N", "SampleIndex")},
+         fuel=["-", "len + 1"]),
+]))
+
+
+# ---- constructions, part 2: IntVector::pack (max over the items, re-push at the new width), SelectSupport::new (two
+# `OneIter`s over the parent — each the list of its remaining (rank, position) pairs: `next` = head / tail, `nth(k)` = drop k
+# then head / tail — a `while sample != None` with a `match`, two `for _ in 0..n` loops pushing into `long` / `short`)
+PAIRIT = ("N", "PairListIter")
+STRUCTS["PairListIter"] = dict(lean="(List (Nat × Nat))", ctor=None, fields={}, fieldmap={})
+PACK_CALLS = {
+    "self.is_empty": dict(lean="decide (self_len = 0)", ret=B, monadic=False),
+    "self.len": dict(lean="self_len", ret=U, monadic=False),
+    "self.width": dict(lean="self_width", ret=U, monadic=False),
+    "<IntVector>.max": dict(lean="maxByGet {0}.len (fun i => gen_IntVector_get m {0} i)", ret=("O", W)),
+    "self.iter": dict(lean="(⟨self_len, self_width, self_data⟩ : IntVec)", ret=IV, monadic=False),
+    "RawVector::with_capacity": dict(lean="(⟨0, #[]⟩ : RawVec)", ret=("N", "RawVector"), monadic=False, args=[U]),
+    "<RawVector>.push_int": dict(lean="gen_RawVector_push_int m {0} {1} {2}", ret=UNIT, mutrecv=True, monadic=True, args=[W, U]),
+}
+SELNEW_CALLS = {
+    "T::count_ones": dict(lean="ones", ret=U, monadic=False, ignore_args=(0,)),
+    "T::one_iter": dict(lean="items", ret=PAIRIT, monadic=False, ignore_args=(0,)),
+    "parent.len": dict(lean="len", ret=U, monadic=False),
+    "IntVector::default": dict(lean="IntVec.default", ret=IV, monadic=False),
+    "<IntVector>.reserve": dict(lean="{0}", ret=UNIT, mutrecv=True, args=[U]),
+    "<IntVector>.push": dict(lean="gen_IntVector_push m {0} {1}", ret=UNIT, mutrecv=True, monadic=True, args=[W]),
+    "<IntVector>.pack": dict(lean="gen_IntVector_pack m {0}", ret=UNIT, mutrecv=True, monadic=True),
+    "<IntVector>.len": dict(lean="{0}.len", ret=U, monadic=False),
+    "<PairListIter>.next": dict(lean="({0}.head?, {0}.tail)", ret=("O", PAIR), mutrecv=True),
+    "<PairListIter>.nth": dict(lean="(({0}.drop {1}).head?, {0}.drop ({1} + 1))", ret=("O", PAIR), mutrecv=True, args=[U]),
+}
+GROUPS.append(("FnsConstr2.lean", ["Sds.Model.BitVector", "Sds.Model.Sparse", "Sds.Generated.FnsVec", "Sds.Generated.FnsBits"], [
+    dict(file="int_vector.rs", impl=r"impl Pack for IntVector\b", fn="pack", name="gen_IntVector_pack", self=dict(INT_SELF, mut=True, rust="IntVector"), calls=PACK_CALLS),
+    dict(file="bit_vector/select_support.rs", impl=r"impl<T: Transformation> SelectSupport<T>", fn="new", name="gen_SelectSupport_new", calls=SELNEW_CALLS,
+         params={"parent": ("(len ones : Nat) (items : List (Nat × Nat))", ("N", "ParentBitVector"), "parent")},
+         ret=("N", "SelectSupport"), fuel=["items.length + 1"], ignore_fields=["_marker"]),
+]))
+
+
 def generate_fn_files(read, consts_by_file):
     """read(rel) -> source text; consts_by_file: {rel: {NAME: int}} (module / associated constants visible in that file)"""
     files = {}
